@@ -4,7 +4,7 @@ from kv import Case, xn, xl, xlist, xbool
 
 ID = "C10"
 MODULE = "C10"
-IMPORTS = "Bytes Shutdown ShutdownProofs"
+IMPORTS = "Bytes Shutdown ShutdownProofs ShutdownBoot ShutdownBootProofs"
 PROFILES = ("dev",)
 FEATURES = ("hooks",)
 IMPL_SHARDS = 8
@@ -33,6 +33,16 @@ THEOREMS = [
     ("no_hang_today_late_waker_refuted",
      "exists s, reachable today s /\\ requested s = true /\\ quiescent today s /\\ finished s = true /\\ "
      "forallb l_exited (ls s) = false"),
+    ("boot_refines",
+     "forall nl nc nh nw w, breachable nl nc nh nw w -> reachable repaired (flat w)"),
+    ("booted_reachable",
+     "forall nl nc nh nw w, breachable nl nc nh nw w -> b_done w = true -> reachable repaired (b_in w)"),
+    ("startup_then_shutdown",
+     "forall nl nc nh nw w sched s, breachable nl nc nh nw w -> b_done w = true -> run repaired (b_in w) sched = Some s -> "
+     "(finished s = true -> all_done s = true /\\ forallb (fun l => negb (l_bound l)) (ls s) = true) /\\ "
+     "(requested s = true -> quiescent repaired s -> completed s = true)"),
+    ("startup_not_requested",
+     "forall nl nc nh nw w, breachable nl nc nh nw w -> requested (b_in w) = false"),
 ]
 
 # ----------------------------------------------------------------------------------------------
@@ -72,7 +82,7 @@ def init(v, nl, nc, nh, nw):
     s.C = nl if v[0] else 0
     s.pre_count = s.want = s.acks = s.received = 0
     s.comp = KNONE
-    s.ls = [[LTOP, False, False, 0] for _ in range(nl)]   # pc, slot, woken, queue
+    s.ls = [[LTOP, False, False, 0, False] for _ in range(nl)]   # pc, slot, woken, queue, in_poll (generator only, see lucky)
     s.cs = []
     s.callers = [SNEW] * nc
     s.hooks = [HNEW] * nh
@@ -119,7 +129,9 @@ def step(v, s0, lb):
             l[3] -= 1
             l[1] = False
             l[0] = LGOT
+            l[4] = False
             return s
+        l[4] = False
         if pc == LTOP:
             l[0] = LSHUT if s.S else LFLAG
         elif pc == LFLAG:
@@ -134,6 +146,7 @@ def step(v, s0, lb):
             if not (l[2] or l[3] != 0):
                 return None
             l[0], l[2] = LTOP, False
+            l[4] = True     # the woken task is inside the poll_fn of the shutdown branch: select! has chosen already
         elif pc == LGOT:
             if fixA2:
                 s.C += 1
@@ -257,28 +270,37 @@ def lucky(s, lb):
         return s.S
     if k == L_STEP:
         l = s.ls[i]
-        return l[3] > 0 and l[0] in (LTOP, LPARKED)
+        return l[3] > 0 and (l[0] == LPARKED or (l[0] == LTOP and not l[4]))
     return False
 
 
-def random_schedule(rng, v, nl, nc, nh, nw, max_conns, max_len, prefix=()):
-    s = init(v, nl, nc, nh, nw)
+def hopeless(s, lb):
+    """a step of the model that the real code cannot take from where it stands: after a wake-up the accept future is
+    already inside the poll_fn of the shutdown branch (LTop in the model), it will read the flag before it polls accept()"""
+    k, i = lb
+    return k == L_TAKE and s.S and s.ls[i][0] == LTOP and s.ls[i][4]
+
+
+def random_schedule(rng, v, nl, nc, nh, nw, max_conns, max_len, prefix=(), start=None, luck0=0):
+    s = init(v, nl, nc, nh, nw) if start is None else start.copy()
     sched = []
     env = 0
-    luck = 0
+    luck = luck0
     for lb in prefix:
         t = step(v, s, lb)
         if t is None:
             break
         if lb[0] == E_CONN:
             env += 1
+        if lucky(s, lb):
+            luck += 1
         s = t
         sched.append(lb)
     bias = rng.choice(["uniform", "listener-first", "caller-first", "conn-first"])
     while len(sched) < max_len:
         cand = []
         for lb in labels(s, max_conns - env):
-            if lucky(s, lb) and luck >= 1:
+            if (lucky(s, lb) and luck >= 1) or hopeless(s, lb):
                 continue
             t = step(v, s, lb)
             if t is not None:
@@ -317,7 +339,7 @@ def bfs_paths(v, nl, nc, nh, nw, max_conns, depth, cap):
         for s, path, env, luck in frontier:
             for lb in labels(s, max_conns - env):
                 lk = lucky(s, lb)
-                if lk and luck >= 1:
+                if (lk and luck >= 1) or hopeless(s, lb):
                     continue
                 t = step(v, s, lb)
                 if t is None:
@@ -336,6 +358,106 @@ def bfs_paths(v, nl, nc, nh, nw, max_conns, depth, cap):
 
 
 REPAIRED = (True, True, True)
+
+# ---- start-up (Model/ShutdownBoot.v): mirror for generation only, as above ---------------------------------------------
+B_EXEC, B_ENV = 9, 10
+BOOT_KINDS = (L_STEP, L_TAKE, E_CONN, C_STEP, C_PANIC)
+
+
+class BSt:
+    __slots__ = ("nl", "k", "ph", "q", "inner")
+
+
+def binit(nl, nc, nh, nw):
+    w = BSt()
+    w.nl, w.k, w.ph, w.q = nl, 0, 0, 0
+    w.inner = init(REPAIRED, 0, nc, nh, nw)
+    return w
+
+
+def bstep(w0, lb):
+    w = BSt()
+    w.nl, w.k, w.ph, w.q, w.inner = w0.nl, w0.k, w0.ph, w0.q, w0.inner
+    k, i = lb
+    if k == B_EXEC:
+        if w.k >= w.nl:
+            return None
+        w.inner = w.inner.copy()
+        if w.ph == 0:
+            w.inner.C += 1
+            w.ph = 1
+        elif w.ph == 1:
+            w.ph = 2
+        else:
+            w.inner.ls.append([LTOP, False, False, w.q, False])
+            w.k, w.ph, w.q = w.k + 1, 0, 0
+        return w
+    if k == B_ENV:
+        if w.k >= w.nl or w.ph != 2:
+            return None
+        w.q += 1
+        return w
+    if k in BOOT_KINDS:
+        t = step(REPAIRED, w.inner, lb)
+        if t is None:
+            return None
+        w.inner = t
+        return w
+    return None
+
+
+def random_boot(rng, nl, nc, nh, nw, max_conns, max_len, eager):
+    """a start-up schedule that ends with execute() returning -> (labels, state of the manager then, lucky steps used)"""
+    w = binit(nl, nc, nh, nw)
+    sched, env, luck = [], 0, 0
+    while w.k < w.nl:
+        cand = [((B_EXEC, 0), 6 if eager or len(sched) >= max_len else 2)]
+        if len(sched) < max_len:
+            if w.ph == 2 and env < max_conns:
+                cand.append(((B_ENV, 0), 2))
+            for lb in labels(w.inner, max_conns - env):
+                if lb[0] in BOOT_KINDS and not (lucky(w.inner, lb) and luck >= 1) and step(REPAIRED, w.inner, lb) is not None:
+                    cand.append((lb, 1 if lb[0] == C_PANIC else 3))
+        lb = rng.choices([c[0] for c in cand], [c[1] for c in cand])[0]
+        if lb[0] in BOOT_KINDS and lucky(w.inner, lb):
+            luck += 1
+        if lb[0] in (B_ENV, E_CONN):
+            env += 1
+        w = bstep(w, lb)
+        sched.append(lb)
+    return sched, w.inner, luck, env
+
+
+def xboot(n, bsched, sched):
+    return xl(xl(*[xn(a) for a in n]), xlist([xl(xn(k), xn(i)) for k, i in bsched]), xlist([xl(xn(k), xn(i)) for k, i in sched]))
+
+
+def bootrep(n, bsched, sched, kind):
+    return Case("shutdown.bootreplay", xboot(n, bsched, sched), "shutdown.bootspec",
+                {"kind": kind, "n": n, "len": len(bsched) + len(sched)}, "dev")
+
+
+def boot_case(rng, n, kind):
+    bsched, st, luck, env = random_boot(rng, n[0], n[1], n[2], n[3], rng.choice([0, 1, 2, 3]), rng.randrange(4, 30), rng.random() < 0.3)
+    sched = random_schedule(rng, REPAIRED, n[0], n[1], n[2], n[3], max(0, 3 - env), rng.randrange(6, 50), start=st, luck0=luck)
+    return bootrep(n, bsched, sched, kind)
+
+
+def parse_boot(text):
+    m = {"X": B_EXEC, "Q": B_ENV, "L": L_STEP, "T": L_TAKE, "E": E_CONN, "C": C_STEP, "P": C_PANIC}
+    return [(m[t[0]], int(t[1:] or 0)) for t in text.split()]
+
+
+# start-up schedules with traffic in between (X = execute's next action, Q = a client connects to the bound listener whose
+# task does not exist yet), then a schedule from the state in which execute() returned
+DIRECTED_BOOT = [
+    # Properties/C10.v ex_boot: loop 0 serves one connection and holds a second one while listener 1 is started
+    ((2, 1, 0, 1), "X X X E0 T0 L0 L0 X X Q C0 C0 E0 T0 X", "S0 S0 S0 S0 L0 L0 L0 L1 L1 L1"),
+    # nothing but the start-up program, three listeners, then a shutdown
+    ((3, 1, 0, 1), "X X X X X X X X X", "S0 S0 S0 S0 L0 L0 L0 L0 L1 L1 L1 L1 L2 L2 L2 L2 L2 L2 K K K W0"),
+    # a handler panics before the second listener is counted
+    ((2, 1, 1, 1), "X X X E0 T0 L0 L0 P0 C0 C0 X X X", "H0 S0 S0 S0 S0"),
+]
 
 
 def xsched(v, n, sched):
@@ -400,11 +522,14 @@ DIRECTED = [
     ((1, 1, 0, 1), "E0 T0 L0 L0 S0 S0 S0 S0 P0 L0 L0 L0 C0 C0 C0 K K K W0"),
     # (c) flag read, then shutdown() sets the flag and notifies, then the waker is registered
     ((1, 1, 0, 1), "L0 S0 S0 S0 S0 L0 L0 L0 L0 L0 L0 K K K W0"),
-    ((2, 1, 0, 1), "L0 L1 L1 L1 L1 S0 S0 S0 S0 L0 L0 L0 L0 L0 L0 L1 L1 L1 L1 L1 L1 L1 K K K W0"),
+    ((2, 1, 0, 1), "L0 L1 L1 L1 L1 S0 S0 S0 S0 L0 L0 L0 L0 L1 L1 L1 L1 L1 L1 K K K W0"),
     # zero connections, two callers, one hook
     ((1, 2, 1, 1), "H0 S0 S1 S0 S1 S0 S1 S0 S1 L0 L0 L0 L0 L0 K K H0 H0 K K W0"),
+    # two hooks: the completion task must wait for the second acknowledgement
+    ((1, 1, 2, 1), "H0 H1 S0 S0 S0 S0 L0 L0 L0 L0 L0 K K H0 H0 K H1 H1 K K W0"),
+    ((1, 1, 2, 0), "H0 H1 S0 S0 S0 S0 L0 L0 L0 L0 L0 K K H1 H0 H1 K H0 K K"),
     # the last connection ends while the flag is being set
-    ((1, 1, 0, 1), "E0 T0 L0 L0 C0 S0 C0 S0 S0 S0 C0 C0 L0 L0 L0 L0 L0 K K K W0"),
+    ((1, 1, 0, 1), "E0 T0 L0 L0 C0 S0 C0 S0 S0 S0 L0 L0 L0 L0 L0 K K K W0"),
 ]
 
 
@@ -431,8 +556,20 @@ def generate(rng, tier):
     cases = []
     # ---- corpus / directed shapes first --------------------------------------------------------
     for n, text in DIRECTED:
-        cases.append(rep(REPAIRED, n, parse_sched(text), "directed"))
+        sched = parse_sched(text)
+        st = init(REPAIRED, *n)
+        for lb in sched:      # generator self-test: a directed schedule is enabled to its end (in the mirror; the model is asked next)
+            st = step(REPAIRED, st, lb)
+            assert st is not None, ("directed schedule not enabled", text, lb)
+        cases.append(rep(REPAIRED, n, sched, "directed"))
+    for n, btext, text in DIRECTED_BOOT:
+        cases.append(bootrep(n, parse_boot(btext), parse_sched(text), "directed-startup"))
     # ---- malformed --------------------------------------------------------------------------------
+    for x in [xn(3), xl(xl(xn(1), xn(1), xn(0), xn(0)), xl(xl(xn(7), xn(0))), xl())]:
+        cases.append(Case("shutdown.bootreplay", x, None, {"kind": "malformed"}, "dev"))
+    # not enabled: a caller's label inside the start-up schedule; a start-up schedule that stops before execute() returns
+    cases.append(Case("shutdown.bootreplay", xboot((1, 1, 0, 0), [(B_EXEC, 0), (B_ENV, 0)], []), None, {"kind": "startup-not-enabled"}, "dev"))
+    cases.append(Case("shutdown.bootreplay", xboot((2, 1, 0, 0), [(B_EXEC, 0)] * 4, [(S_STEP, 0)]), None, {"kind": "startup-unfinished"}, "dev"))
     for x in [xn(3), xl(xn(1)), xl(xl(xn(1), xn(1)), xl(xn(1)), xl()),
               xl(xl(xbool(1), xbool(1), xbool(1)), xl(xn(99), xn(1), xn(0), xn(0)), xl())]:
         cases.append(Case("shutdown.replay", x, None, {"kind": "malformed"}, "dev"))
@@ -446,7 +583,8 @@ def generate(rng, tier):
     for _ in range(1000 if quick else 20000):
         cases.append(meth(random_ops(rng, rng.randrange(1, 24 if quick else 60)), "methods-random"))
     # ---- schedules from the reachable graph of the model ------------------------------------------------
-    shapes = [(1, 1, 0, 1), (1, 1, 0, 0), (2, 1, 0, 1), (1, 2, 0, 1), (1, 1, 1, 1), (2, 2, 1, 1), (2, 1, 1, 0), (1, 0, 0, 1)]
+    shapes = [(1, 1, 0, 1), (1, 1, 0, 0), (2, 1, 0, 1), (1, 2, 0, 1), (1, 1, 1, 1), (2, 2, 1, 1), (2, 1, 1, 0), (1, 0, 0, 1),
+              (1, 1, 2, 1), (2, 1, 2, 1), (3, 1, 0, 1)]
     nbfs = 40 if quick else 900
     nrand = 160 if quick else 2500
     for j in range(nbfs):
@@ -461,6 +599,9 @@ def generate(rng, tier):
         n = rng.choice(shapes)
         sched = random_schedule(rng, REPAIRED, n[0], n[1], n[2], n[3], rng.choice([0, 1, 2, 3]), rng.randrange(6, 70))
         cases.append(rep(REPAIRED, n, sched, "random-walk"))
+    # ---- start-up interleaved with traffic, then a schedule from the state in which execute() returned ---------------
+    for j in range(40 if quick else 600):
+        cases.append(boot_case(rng, rng.choice([(1, 1, 0, 1), (2, 1, 0, 1), (2, 1, 1, 1), (3, 1, 0, 1), (2, 2, 0, 0), (3, 0, 0, 1)]), "startup-walk"))
     return cases
 
 
@@ -469,9 +610,9 @@ def _obs(i):
         x = kv.xparse(i)
     except Exception:
         return None
-    if x[0] != "L" or len(x[1]) != 2 or x[1][0][0] != "L":
+    if x[0] != "L" or len(x[1]) not in (2, 3) or x[1][-2][0] != "L":
         return None
-    return x[1][0][1], x[1][1]
+    return x[1][-2][1], x[1][-1]
 
 
 def clauses(i):
@@ -509,7 +650,7 @@ def clauses(i):
 
 
 def spec_ok(c, i, s):
-    if c.comp != "shutdown.replay":
+    if c.comp not in ("shutdown.replay", "shutdown.bootreplay"):
         return i == s
     r = clauses(i)
     if r is None:
@@ -597,12 +738,16 @@ def directed(rng, mismatches):
         cases.append(rep(REPAIRED, n, random_schedule(rng, REPAIRED, n[0], n[1], n[2], n[3], rng.choice([1, 2, 3]), rng.randrange(10, 60)), "directed-walk"))
     for _ in range(300):
         cases.append(meth(random_ops(rng, rng.randrange(1, 30)), "directed-methods"))
+    for n, btext, text in DIRECTED_BOOT:
+        cases.append(bootrep(n, parse_boot(btext), parse_sched(text), "directed-startup"))
+    for _ in range(40):
+        cases.append(boot_case(rng, rng.choice([(1, 1, 0, 1), (2, 1, 0, 1), (3, 1, 0, 1)]), "directed-startup-walk"))
     return cases
 
 
 def describe(c):
     d = {"component": c.comp, "kind": c.meta.get("kind"), "profile": c.profile}
-    if c.comp == "shutdown.replay" and "n" in c.meta:
+    if c.comp in ("shutdown.replay", "shutdown.bootreplay") and "n" in c.meta:
         d["listeners/callers/hooks/waiters"] = c.meta["n"]
         d["schedule_length"] = c.meta["len"]
     d["input"] = kv.pretty(c.x, 400)
@@ -610,18 +755,20 @@ def describe(c):
 
 
 def extra_coverage(cases, impl, model, spec):
-    lens = [c.meta["len"] for c in cases if c.comp == "shutdown.replay" and "len" in c.meta]
-    stalled = sum(1 for c in cases if c.comp == "shutdown.replay" and "(N 78)" in impl.get(c.id, ""))
+    lens = [c.meta["len"] for c in cases if c.comp in ("shutdown.replay", "shutdown.bootreplay") and "len" in c.meta]
+    stalled = sum(1 for c in cases if c.comp in ("shutdown.replay", "shutdown.bootreplay") and "(N 78)" in impl.get(c.id, ""))
+    boots = sum(1 for c in cases if c.comp == "shutdown.bootreplay" and "len" in c.meta)
     return {"schedule_mode": "active schedule control through verif-hooks rendez-vous points (no fall-back to passive trace inclusion was needed)",
-            "schedules_replayed": len(lens), "schedule_steps_replayed": sum(lens), "schedules_stalled": stalled}
+            "schedules_replayed": len(lens), "of_which_with_a_start_up_schedule": boots, "schedule_steps_replayed": sum(lens),
+            "schedules_stalled": stalled}
 
 
 RULE = ("(1) method level: random sequences (1-60 operations) of add_connection, remove_connection, shutdown, wait_for_pre_shutdown "
         "(register), acknowledge hook h, yield on a real shutdown::Manager (current-thread runtime; the completion task runs between "
         "operations) against the model run with whole-method steps; after every operation (count, flag, wait() resolved?, per hook "
         "registered/signalled/acknowledged, initiate channel sent) is compared; the property's clauses are evaluated on the observed "
-        "sequence (oracle). (2) schedule replay: schedules of the Coq transition system (1-2 listeners, 0-3 connections, 0-2 shutdown "
-        "callers, 0-1 hooks, 0-1 waiters, handler returns or panics) are replayed on a real server (RunConfig::execute, IPv4 loopback "
+        "sequence (oracle). (2) schedule replay: schedules of the Coq transition system (1-3 listeners, 0-3 connections, 0-2 shutdown "
+        "callers, 0-2 hooks, 0-1 waiters, handler returns or panics) are replayed on a real server (RunConfig::execute, IPv4 loopback "
         "ports, HTTP/1 clients) built with the cargo feature verif-hooks: every thread/task of the server blocks at each hook point "
         "until the controller releases it, so the interleaving of the accesses to flag, count, completion flag, waker slots and channels "
         "is the scheduled one. Schedules = the three windows found in 0.6.3 and their variants, paths to distinct states of the model's "
@@ -630,8 +777,17 @@ RULE = ("(1) method level: random sequences (1-60 operations) of add_connection,
         "task / hook / waiter) is compared with the model; after the schedule every thread runs on freely and the outcome (wait() "
         "resolved, every port refuses connections — probed once, every connection task ended, every hook acknowledged, every waiter "
         "resolved) is compared. The two clauses of the property are evaluated on every observed run (oracle). The branch order of "
-        "tokio::select! in the accept future is random: a run in which the other ready branch was polled first is repeated (up to 8 "
-        "times), schedules contain at most one such step; what still cannot be executed is counted as out_of_domain. "
+        "tokio::select! in the accept future is random: a run in which the other ready branch was polled first is repeated (up to 20 "
+        "times), schedules contain at most one such step; what still cannot be executed is counted as out_of_domain. A step the real code "
+        "does not take within 4 s ends the implementation's trace with the marker 78 (after one repetition of the run), an access to the "
+        "manager's hook points by a thread that is none of the model's threads with the marker 79: both are mismatches. "
+        "(3) start-up replay: RunConfig::execute runs on a thread of its own that stops at the hook points of the start-up program "
+        "(before a socket is created, after it is bound and listening); schedules of Model/ShutdownBoot.v (execute's next action: count / "
+        "bind + listen / spawn; a client connecting to the bound listener whose task does not exist yet; steps of the accept loops and "
+        "connection tasks that exist already; 1-3 listeners) are replayed, after every step (what execute does next, number of accept "
+        "tasks, program counters) is compared — the count cannot be read before execute has returned the manager: taking the count is "
+        "executed together with the spawn before it, and is compared from the first observation after the return — and from the state "
+        "in which execute returned a schedule as in (2) follows. "
         "distinct_nontrivial counts distinct schedules / operation sequences by outcome")
 ASSUMPTIONS = [
     "sequentially consistent interleavings of the atomic accesses; Release/Acquire store-buffering executions (shutdown() stores the flag "
@@ -641,13 +797,19 @@ ASSUMPTIONS = [
     "every other thread)",
     "every connection task ends (the handler returns or panics) and every registered hook acknowledges exactly once: threads with an "
     "enabled step are eventually scheduled; 'quiescent' means no thread of the server or of its users can move",
-    "listeners are bound and counted before shutdown() can be called (RunConfig::execute takes the counts before it returns); a hook is "
-    "'registered in time' if wait_for_pre_shutdown() was called before the completion task read the hook count",
+    "nobody calls shutdown(), wait_for_pre_shutdown() or wait() before RunConfig::execute has returned (it creates the manager and "
+    "returns the only handle; ctl::listen gets its clone after the last accept task is spawned). What execute does before that — for "
+    "each port in turn: take the accept loop's count, create/bind/listen the socket itself (since fix 76d8d4f; before it the spawned "
+    "task did), spawn the accept task — is modelled (Model/ShutdownBoot.v) with the traffic of the loops already running in between; "
+    "that the state at the return is a reachable state of the main transition system is a theorem (booted_reachable), not an assumption. "
+    "A hook is 'registered in time' if wait_for_pre_shutdown() was called before the completion task read the hook count",
     "connections queued in the kernel that no accept() has returned are not 'accepted' (they are reset when the listener closes)",
 ]
 TRUSTED = ["modelled: src/shutdown.rs Manager::{add_connection, remove_connection, shutdown, _shutdown, wait, wait_for_pre_shutdown}, "
            "WakerList::notify, set_waker/remove_waker, AcceptFuture::accept (poll_fn + select!), ConnectionGuard; src/lib.rs accept (loop, "
-           "count, spawn, exit) and the listener part of RunConfig::execute; src/ctl.rs shutdown/wait plugins as caller + hook",
+           "count, spawn, exit) and the listener part of RunConfig::execute (non-uring branch: count, bind + listen, spawn per port, interleaved "
+           "with the accept loops already spawned and their connections; the interleaving with a predecessor instance is C11's model); "
+           "src/ctl.rs shutdown/wait plugins as caller + hook",
            "hook points: kvarn commits listed in hooks.json (feature verif-hooks, add-only); the schedule controller lives in the harness"]
 LEVEL_TEXT = ("Machine-checked Coq theorems over an executable labelled transition system of the shutdown manager, the accept future, "
               "the accept loops, the connection tasks (handler returns or panics), the shutdown callers, the completion task, pre-shutdown "
@@ -657,7 +819,14 @@ LEVEL_TEXT = ("Machine-checked Coq theorems over an executable labelled transiti
               "bound (finished_after_all, finished_listeners_closed); every reachable state in which shutdown was requested and no thread "
               "can move has the signal sent, every listener exited, every connection task ended (also after a panic, also with zero "
               "connections, also with two callers), every hook acknowledged, every waiter resolved (no_hang); the signal is sent only after "
-              "as many acknowledgements as hooks were registered when the completion task read their number (hooks_before_finished). For "
+              "as many acknowledgements as hooks were registered when the completion task read their number (hooks_before_finished). The "
+              "initial state of that system (every accept loop counted, bound, about to poll) is itself derived: a second transition system "
+              "is the start-up program of RunConfig::execute (per listener: count, bind + listen, spawn) interleaved in every way with the "
+              "accept loops already spawned, their connection tasks and arriving clients; every state it reaches stands for a reachable "
+              "state of the main system (boot_refines: a refinement with the listeners still to come at the top of their loop and their "
+              "counts added; the decrement of a connection that ends during start-up never sees a count <= 0 because its loop's count is "
+              "held), the state in which execute returns is reachable there (booted_reachable), so both clauses hold after any start-up "
+              "(startup_then_shutdown) and shutdown cannot have been requested before (startup_not_requested). For "
               "kvarn 0.6.3 as found the three statements are refuted by explicit schedules (accepted-but-uncounted connection; panicking "
               "handler; waker registered after notify), each replayed step by step on the real code before it was repaired (three fix "
               "commits). The interleavings are sequentially consistent: the Release/Acquire store-buffering executions that the C/C++11 "
@@ -666,12 +835,15 @@ LEVEL_TEXT = ("Machine-checked Coq theorems over an executable labelled transiti
               "comes to rest from a reachable requested state, a finite continuation has reached the completed state; that it always comes "
               "to rest (termination of the threads' programs) is not mechanised. The "
               "model is tied to the repository on every run by replaying model schedules on a real server through rendez-vous hook points "
-              "and by a method-level differential on a real Manager.")
+              "(from the state in which execute() returned, and with execute() itself under schedule control) and by a method-level "
+              "differential on a real Manager.")
 LEVEL_NOTE = ("Trusted: Coq kernel; extraction (ExtrOcamlBasic) reduced by an in-kernel recheck sample; the hand transcription of "
               "src/shutdown.rs and of the accept loop of src/lib.rs as validated by the schedule replay (which serialises the real threads "
               "at the hook points: what happens between two hook points is assumed atomic w.r.t. the other threads, e.g. a swap replaced "
-              "by load+store is invisible to it); tokio's scheduler, select!, wakers and channels are outside every theorem. Weak-memory "
-              "executions: not covered. No axioms.")
+              "by load+store is invisible to it; in the start-up program 'spawn listener i, take the count of listener i+1' lies between two "
+              "hook points and is executed as one step although the model has it as two); the uring branch of execute (one thread and "
+              "runtime per listener) is not modelled; tokio's scheduler, select!, wakers and channels are outside every theorem. "
+              "Weak-memory executions: not covered. No axioms.")
 TECHNIQUE = ("Coq proof (inductive invariants over all schedules of an executable labelled transition system, any number of listeners, "
-             "connections, callers, hooks, waiters) + schedule-replay correspondence on the real server through rendez-vous hook points + "
-             "method-level differential on the real Manager")
+             "connections, callers, hooks, waiters; refinement proof for the start-up program) + schedule-replay correspondence on the "
+             "real server through rendez-vous hook points, including the start-up + method-level differential on the real Manager")
